@@ -585,10 +585,10 @@ class SymReal:
         t = self.z
         l = _LOG(t)
         if CTX.active:
-            # t - 1 >= log t with equality iff t == 1 (for t > 0)
+            # t - 1 >= log t >= 1 - 1/t with equality iff t == 1 (for t > 0); the lower bound is the upper one at 1/t
             CTX.axiom(
                 ("log", t.get_id()),
-                z3.Implies(t > 0, z3.And(l <= t - 1, (l == t - 1) == (t == 1))),
+                z3.Implies(t > 0, z3.And(l <= t - 1, (l == t - 1) == (t == 1), l * t >= t - 1, (l * t == t - 1) == (t == 1))),
             )
         return SymReal(l, _or(self.u, t <= 0))
 
